@@ -39,13 +39,14 @@ TFsync    == IsEvent("fsync") /\ SysFsync(Ev.n)
 TFsyncDir == IsEvent("fsyncdir") /\ SysFsyncDir
 TRename   == IsEvent("rename") /\ SysRename(Ev.a, Ev.b)
 TUnlink   == IsEvent("unlink") /\ SysUnlink(Ev.n)
+TLink     == IsEvent("link") /\ SysLink(Ev.a, Ev.b)
 TForeign  == IsEvent("foreign") /\ SysForeign
 TRet      == IsEvent("ret") /\ Return(Ev.r)
 TKillView == /\ IsEvent("killview")
              /\ KillView["F"] = Ev.F /\ KillView["G"] = Ev.G
              /\ UNCHANGED fsvars
 
-TraceNext == TReset \/ TCreat \/ TCreatTmp \/ TWrite \/ TFsync \/ TFsyncDir \/ TRename \/ TUnlink
+TraceNext == TReset \/ TCreat \/ TCreatTmp \/ TWrite \/ TFsync \/ TFsyncDir \/ TRename \/ TUnlink \/ TLink
              \/ TForeign \/ TRet \/ TKillView
 
 TraceInit == FsInit([op |-> "noop", hadOld |-> FALSE, hasAux |-> FALSE]) /\ l = 1
